@@ -5,7 +5,7 @@ V=pathlib.Path('/verif'); L=pathlib.Path('/tmp/leanwork')
 shutil.copy(L/"LbfgsbVerif/Model/Kernels.lean", V/"lean/LbfgsbVerif/Model/Kernels.lean")
 shutil.copy(L/"LbfgsbVerif/Props/C11.lean", V/"lean/LbfgsbVerif/Props/C11.lean")
 shutil.copy(L/"LbfgsbVerif/Props/Kernels.lean", V/"lean/LbfgsbVerif/Props/Kernels.lean")
-for f in ["Proofs/C02.lean","Props/C02.lean","Props/C16Run.lean"]:
+for f in ["Proofs/C02.lean","Props/C02.lean","Props/C16Run.lean","Proofs/SubspaceBridge.lean","Props/C09Run.lean"]:
     shutil.copy(L/"LbfgsbVerif"/f, V/"lean"/"LbfgsbVerif"/f)
 shutil.copy(L/"Driver.lean", V/"lean/Driver.lean")
 shutil.copy('/tmp/newharness3/whole.py', V/"harness/whole.py")
@@ -15,10 +15,11 @@ def edit(path, subs):
     for a,b in subs:
         assert a in s, (path, a[:60]); s=s.replace(a,b,1)
     p.write_text(s)
-edit("harness/props/c01.py", [('"Lbfgsb.C01.model_iteration_descent"]','"Lbfgsb.C01.model_iteration_descent", "Lbfgsb.kernelInput_sizes", "Lbfgsb.buildMinv_symm", "Lbfgsb.complete_iteration_descent"]'),
+edit("harness/props/c01.py", [('"Lbfgsb.C01.model_iteration_descent"]','"Lbfgsb.C01.model_iteration_descent", "Lbfgsb.kernelInput_sizes", "Lbfgsb.buildMinv_symm", "Lbfgsb.complete_iteration_descent", "Lbfgsb.first_iteration_descent"]'),
     ('"LbfgsbVerif.Props.C01Descent"]','"LbfgsbVerif.Props.C01Descent", "LbfgsbVerif.Props.Kernels"]')])
 edit("harness/props/c02_cfg.py", [('"Lbfgsb.C02.getBounds_ok"]','"Lbfgsb.C02.getBounds_ok", "Lbfgsb.xbarModel_inBox", "Lbfgsb.evals_in_box_complete"]'),
     ('"LbfgsbVerif.Props.C02Bounds"]','"LbfgsbVerif.Props.C02Bounds", "LbfgsbVerif.Props.Kernels"]')])
+edit("harness/props/c09.py", [('"Lbfgsb.C09.subspace_direction_descent"]','"Lbfgsb.C09.subspace_direction_descent", "Lbfgsb.C09.subspace_newton_point_nopairs",\n            "Lbfgsb.C09.subspace_direction_descent_nopairs"]')])
 edit("harness/props/c11.py", [('"Lbfgsb.C11.wolfe_gives_curvature"]','"Lbfgsb.C11.wolfe_gives_curvature", "Lbfgsb.C11.concreteOracles_stepper",\n            "Lbfgsb.C11.concrete_ls_steps_in_range"]')])
 edit("harness/manifest_gen.py", [("not a theorem: it is decided on real runs (600 quick / 8000 thorough convex problems",
    "not a theorem: it is decided on real runs — and the COMPLETE executable model (Model/Kernels.lean: compact matrices from the memory snapshot, cauchy, subspaceMin, "
